@@ -62,6 +62,20 @@ fn dup_key(s: &str) -> Result<(), String> {
     Ok(())
 }
 
+/// remainder of data(x)·x^24 modulo G(x) = x^24 + x^23 + … + x^12 + x^10 + x^3 + 1 (Annex 10 Vol IV 3.1.2.3.3)
+fn spec_parity24(data: &[u8]) -> u32 {
+    const G: u32 = 0x1FFF409;
+    let mut r: u32 = 0;
+    for i in 0..data.len() * 8 + 24 {
+        let bit = if i < data.len() * 8 { (data[i / 8] >> (7 - i % 8)) & 1 } else { 0 } as u32;
+        r = (r << 1) | bit;
+        if r & 0x1000000 != 0 {
+            r ^= G;
+        }
+    }
+    r & 0xFFFFFF
+}
+
 fn oracle(out: &mut Out, bytes: &[u8], op: &str) -> String {
     let (d, msg) = decode_json(bytes);
     let ans = dec_answer(&d);
@@ -95,7 +109,15 @@ fn oracle(out: &mut Out, bytes: &[u8], op: &str) -> String {
                         let addr = if [11u8, 17, 18].contains(&df) {
                             ((bytes[1] as u32) << 16) | ((bytes[2] as u32) << 8) | bytes[3] as u32
                         } else {
-                            modes_checksum(bytes, bytes.len() * 8).unwrap_or(0xffff_ffff)
+                            // address/parity overlay, computed here bit by bit (NOT with the decoder's own
+                            // modes_checksum): remainder of the frame without its last 24 bits, xor those bits
+                            let n = if bytes[0] & 0x80 != 0 { 14 } else { 7 };
+                            if bytes.len() < n {
+                                0xffff_ffff
+                            } else {
+                                spec_parity24(&bytes[..n - 3])
+                                    ^ (((bytes[n - 3] as u32) << 16) | ((bytes[n - 2] as u32) << 8) | bytes[n - 1] as u32)
+                            }
                         };
                         let want = format!("{addr:06x}");
                         if v.get("icao24").and_then(|x| x.as_str()) != Some(want.as_str()) {
